@@ -443,6 +443,8 @@ class Ctx:
         self.tier = tier
         self.thorough = tier == "thorough"
         self.seed = int(os.environ.get("VERIF_SEED", "0") or 0)
+        self.seed0 = self.seed
+        self.extra_passes = 0
         self.rng = random.Random(f"{prop}-{self.seed}")
         self.t0 = time.time()
         self._model: Model | None = None
@@ -464,7 +466,8 @@ class Ctx:
             self.drift = source_drift(prop, os.environ.get("LW_REPO", "/repo"))
         except Exception as e:  # noqa: BLE001
             self.drift = {"changed": [], "pinned_at": None, "note": f"drift check failed: {e}"}
-        self.escalation = int(os.environ.get("VERIF_ESCALATION") or (4 if self.drift["changed"] else 1))
+        # number of additional passes (fresh random streams) allowed when the source has drifted
+        self.escalation = int(os.environ.get("VERIF_ESCALATION") or (3 if self.drift["changed"] else 0))
 
     # -- model
     @property
@@ -486,11 +489,14 @@ class Ctx:
             self.samples.append(sample)
 
     def n(self, quick, thorough):
-        if self.thorough:
-            return thorough
-        if self.escalation > 1 and isinstance(quick, int) and isinstance(thorough, int) and thorough > quick:
-            return min(thorough, quick * self.escalation)
-        return quick
+        return thorough if self.thorough else quick
+
+    def reseed(self, k: int) -> None:
+        """start an additional pass of the same check with fresh random streams (used when the code the
+        model mirrors has drifted from the pins: main.py runs extra passes while the time budget lasts)"""
+        self.seed = self.seed0 + 104729 * k
+        self.rng = random.Random(f"{self.prop}-{self.seed}")
+        self.extra_passes = k
 
     def out_of_time(self) -> bool:
         """safety cap on the run time of the generated-case loops (case counts are fixed per tier and
@@ -578,7 +584,7 @@ class Ctx:
             "notes": self.notes,
             "pythonhashseed": os.environ.get("PYTHONHASHSEED"),
             "source_drift": {"pinned_at": self.drift.get("pinned_at"), "changed_definitions": self.drift["changed"][:40],
-                             "case_count_escalation": self.escalation},
+                             "extra_passes_allowed": self.escalation, "extra_passes_run": self.extra_passes},
         }
         if "leanchecker" in audit:
             cov["leanchecker"] = audit["leanchecker"]
@@ -586,7 +592,7 @@ class Ctx:
         ev = {
             "property_id": self.prop,
             "tier": self.tier,
-            "seed": self.seed,
+            "seed": self.seed0,
             "level": "proof",
             "coverage": cov,
             "assumptions": assumptions,
@@ -599,7 +605,7 @@ class Ctx:
             self._model.close()
         status = "VIOLATED" if self.violations else "held"
         print(
-            f"[{self.prop} {self.tier} seed={self.seed}] {status}: {audit['discharged']}/{audit['obligations']} theorems, "
+            f"[{self.prop} {self.tier} seed={self.seed0}] {status}: {audit['discharged']}/{audit['obligations']} theorems, "
             f"{self.evaluations} cases ({len(self.nontrivial)} distinct non-trivial), "
             f"{len(self.violations)} violations, {len(self.known_hits)} known findings, {wall}s",
             flush=True,
